@@ -193,3 +193,38 @@ Proof.
   - pose proof (rank_conserves_at_every_cut c1b 2 1000 [] o1 (rng2_c c1b eq_refl)) as H. rewrite E1 in H.
     apply H; try (intros; reflexivity); try (repeat constructor; cbv; intuition congruence).
 Qed.
+
+(* THE COUNTERS ARE THE ACCOUNTING, AND THE BARRIER'S CRITERION SUFFICES.  When a rank has returned from its last barrier its send
+   counter is the number of messages it originated and its receive counter the number of handlers it started
+   (RankExecCount.v: every send-count increment is immediately followed by its enqueue; handlers started = handlers completed +
+   handler depth, through all 24 procedures).  If the counters of all ranks at a cut sum to the same value - what the count
+   reduction of barrier() tests - then nothing is pending in any buffer or inside MPI, and the handlers started are exactly the
+   messages originated: every async issued has executed exactly once. *)
+From Ygm Require Import RankExecCount.
+Theorem C01_rank_counters_are_the_accounting : forall c fuel nranks main orc s',
+  run_rank fuel c nranks main orc = Ok s' ->
+  scnt s' = Z.of_nat (length (og (hist s'))) /\ rcnt s' = Z.of_nat (length (X (hist s'))).
+Proof. exact rank_counters_are_the_accounting. Qed.
+Print Assumptions C01_rank_counters_are_the_accounting.
+
+Theorem C01_balanced_counters_mean_exactly_once : forall rs, Forall acct rs -> forall U,
+  Permutation (flat_map (fun r => map snd (sent_of (log (r_st r)))) rs) (flat_map (fun r => Rc (r_h r)) rs ++ U) ->
+  Forall cntok rs -> sumf (fun r => scnt (r_st r)) rs = sumf (fun r => rcnt (r_st r)) rs ->
+  owed rs = [] /\ U = [] /\ in_buffers rs = [] /\ Permutation (originated rs) (executed rs).
+Proof. exact balanced_counters_mean_exactly_once. Qed.
+Print Assumptions C01_balanced_counters_mean_exactly_once.
+
+(* non-vacuity: the two complete rank executions of C01_composition_not_vacuous satisfy cntok through the theorem above, and
+   their counters balance (1 = 1) *)
+Example C01_counters_theorem_not_vacuous :
+  Forall cntok two_ranks /\ sumf (fun r => scnt (r_st r)) two_ranks = sumf (fun r => rcnt (r_st r)) two_ranks.
+Proof.
+  assert (R0 : exists s, run_rank 1000 c1 2 [AAsync 1 7 40] o0 = Ok s) by (eexists; vm_compute; reflexivity).
+  assert (R1 : exists s, run_rank 1000 c1b 2 [] o1 = Ok s) by (eexists; vm_compute; reflexivity).
+  destruct R0 as (s0 & E0). destruct R1 as (s1 & E1).
+  split; [|vm_compute; reflexivity].
+  unfold two_ranks. rewrite E0, E1. cbn [st_of].
+  constructor; [|constructor; [|constructor]]; unfold cntok, r_h; cbn [r_st].
+  - apply (rank_counters_are_the_accounting c1 1000 2 [AAsync 1 7 40] o0 s0 E0).
+  - apply (rank_counters_are_the_accounting c1b 1000 2 [] o1 s1 E1).
+Qed.
